@@ -18,6 +18,23 @@ self), the comment chosen by `+`.  `EnergyResult * x` for numpy scalars that are
 (np.int64, np.float32) raises the library's explicit TypeError: accepted and counted (a wrong *value*
 would be a violation).  0-d data (no energy axis, rank 0) cannot be transformed by TR/inversion
 (Transform.__call__ indexes res[:]) - counted as skipped.
+
+Widening review (histories and argument forms, same oracles):
+* every result returned by an operation is kept and re-read at the end of the case (values returned
+  earlier must stay valid); operands are re-compared completely (data, energies, transforms) at the end;
+* objects that were used before: cached properties warm (`monitors.warm_caches`), sums whose blocks were
+  merged before / after the operation, a result built from a list of k-blocks, results of earlier operations
+  as operands of the in-place `add`, of `transform` (twice, inverse) and of save;
+* save histories: `save` with a `{}` place holder, `savedata` in every save mode with empty / non-empty
+  prefix and suffix, `ResultDict.savedata`, save of derived objects, load -> save -> load, the loaded object as
+  an operand (`ld*c`, `ld+a`, `a+ld`), a missing file (documented: void result);
+* argument forms: Energies as tuple / bare array, smoothers None / tuple / bare, empty title lists, equal but
+  separately built transforms on the two operands, default (None) transforms with proper rotations, data that
+  are Fortran-ordered / strided / negative-stride views / read-only, 100-1000 energies, 100-300 k-points, 16-40
+  bands; symmetry axes as list / tuple / array of any non-zero length (1e-6..1e6), default axes, `copy()`,
+  `PointSymmetry(**sym.as_dict())`, `from_string_prod`; dictionaries with different key order, no keys.
+* smoothers must travel through `*`, `/`, `-`, `transform`, `mul_array` (documented in the class docstring).
+Classes that fire on the unchanged tree are run only with VERIF_C16_PENDING=1 (see `PENDING`).
 """
 import os
 import shutil
@@ -25,11 +42,12 @@ import sys
 import tempfile
 
 sys.path.insert(0, os.path.dirname(os.path.dirname(os.path.abspath(__file__))))
-from vlib import env, harness  # noqa: E402
+from vlib import env, harness, monitors  # noqa: E402
 import numpy as np  # noqa: E402
 
 PROP = "C16"
 RTOL = 1e-12
+PENDING = os.environ.get("VERIF_C16_PENDING", "") == "1"   # classes that fire on the unchanged tree (reported, undecided)
 
 # what the pre-defined Transform objects are documented to be (factor, conj, transpose_axes, swap_axes)
 PREDEF = {
@@ -160,38 +178,83 @@ def gen_transform(rng, rank, ps):
     return ps.Transform(factor=f, conj=cj, transpose_axes=p), mkspec(f, cj, p), f"perm{n}"
 
 
-def gen_sym(rng, ps):
-    """-> (PointSymmetry object, full 3x3 matrix (improper allowed), TR flag, label)"""
+def gen_sym(rng, ps, ctx=None, proper_only=False):
+    """-> (PointSymmetry object, full 3x3 matrix (improper allowed), TR flag, label)
+    proper_only: no TR, det = +1 (for results that have no TR / inversion transform)"""
+    def cnt(name):
+        if ctx is not None:
+            ctx.count(name)
+
     def randaxis():
         if rng.random() < 0.3:
             return [(1, 0, 0), (0, 1, 0), (0, 0, 1), (1, 1, 0), (1, 1, 1), (1, -1, 0)][int(rng.integers(6))]
         v = rng.normal(size=3)
         return tuple(float(x) for x in v / np.linalg.norm(v) * rng.uniform(0.3, 3))
 
+    def axis_form(ax):
+        """the same direction in another documented form ("Iterable of 3 float numbers. Length of vector does not matter")"""
+        ax = np.array(ax, dtype=float)
+        if rng.random() < 0.25:
+            ax = ax * 10 ** rng.uniform(-6, 6)
+            cnt("sym_axis_rescaled")
+        form = int(rng.integers(3))
+        if form == 0:
+            return [float(x) for x in ax]
+        if form == 1:
+            cnt("sym_axis_tuple_or_array")
+            return tuple(float(x) for x in ax)
+        cnt("sym_axis_tuple_or_array")
+        return ax
+
+    def named(name):
+        k, n, ax = NAMED_SYM[name]
+        if k == "rot":
+            return rodrigues(ax, 2 * np.pi / n), False
+        if k == "mirror":
+            u = np.array(ax, dtype=float)
+            return np.eye(3) - 2 * np.outer(u, u), False
+        if k == "inv":
+            return -np.eye(3), False
+        return np.eye(3), True
+
     def one():
-        kind = ["rot", "mirror", "named", "named", "general", "tr", "inv"][int(rng.integers(7))]
+        kinds = ["rot", "mirror", "named", "named", "general", "tr", "inv", "default_axis", "string_prod"]
+        if proper_only:
+            kinds = ["rot", "rot", "general", "default_axis"]
+        kind = kinds[int(rng.integers(len(kinds)))]
         if kind == "rot":
             n = int(rng.choice([1, 2, 3, 4, 6, 5, -3, -4, 8]))
             ax = randaxis()
-            return ps.Rotation(n, list(ax)), rodrigues(ax, 2 * np.pi / n), False, "rot"
+            return ps.Rotation(n, axis_form(ax)), rodrigues(ax, 2 * np.pi / n), False, "rot"
         if kind == "mirror":
             ax = np.array(randaxis(), dtype=float)
             u = ax / np.linalg.norm(ax)
-            return ps.Mirror(list(ax)), np.eye(3) - 2 * np.outer(u, u), False, "mirror"
+            return ps.Mirror(axis_form(ax)), np.eye(3) - 2 * np.outer(u, u), False, "mirror"
+        if kind == "default_axis":     # documented default axis = z
+            cnt("sym_default_axis")
+            if proper_only or rng.random() < 0.5:
+                n = int(rng.choice([2, 3, 4, 6, -6]))
+                return ps.Rotation(n), rodrigues((0, 0, 1), 2 * np.pi / n), False, "rot_default_axis"
+            return ps.Mirror(), np.diag([1.0, 1.0, -1.0]), False, "mirror_default_axis"
         if kind == "named":
             name = sorted(NAMED_SYM)[int(rng.integers(len(NAMED_SYM)))]
-            k, n, ax = NAMED_SYM[name]
             obj = ps.dict_sym[name] if rng.random() < 0.5 else ps.from_string(name)
-            if k == "rot":
-                return obj, rodrigues(ax, 2 * np.pi / n), False, name
-            if k == "mirror":
-                u = np.array(ax, dtype=float)
-                return obj, np.eye(3) - 2 * np.outer(u, u), False, name
-            if k == "inv":
-                return obj, -np.eye(3), False, name
-            return obj, np.eye(3), True, name
+            M, TR = named(name)
+            return obj, M, TR, name
+        if kind == "string_prod":      # 'A*B*C' = the ordered product A.B.C
+            names = [sorted(NAMED_SYM)[int(rng.integers(len(NAMED_SYM)))] for _ in range(int(rng.integers(1, 4)))]
+            M, TR = np.eye(3), False
+            for nm in names:
+                Mi, TRi = named(nm)
+                M = M @ Mi
+                TR = TR != TRi
+            cnt("sym_from_string_prod")
+            return ps.from_string_prod("*".join(names)), M, TR, "'" + "*".join(names) + "'"
         if kind == "general":
-            M = rodrigues(rng.normal(size=3), rng.uniform(0, 2 * np.pi)) * int(rng.choice([1, -1]))
+            M = rodrigues(rng.normal(size=3), rng.uniform(0, 2 * np.pi))
+            if proper_only:
+                return ps.PointSymmetry(M.copy(), False), M, False, "general"
+            M = M * int(rng.choice([1, -1]))
             TR = bool(rng.random() < 0.5)
             return ps.PointSymmetry(M.copy(), TR), M, TR, "general"
         if kind == "tr":
@@ -213,7 +276,45 @@ def gen_sym(rng, ps):
     for f in facs:
         M = M @ f[1]
         TR = TR != f[2]
-    return obj, M, TR, "*".join(f[3] for f in facs)
+    label = "*".join(f[3] for f in facs)
+    # the same operation after going through other public calls
+    r = rng.random()
+    if r < 0.12:
+        obj = obj.copy()
+        cnt("sym_via_copy")
+        label += ".copy()"
+    elif r < 0.27:
+        obj = ps.PointSymmetry(**obj.as_dict())
+        cnt("sym_via_as_dict")
+        label += "->as_dict"
+    return obj, M, TR, label
+
+
+def rebuild_transform(ps, sp):
+    """an equal Transform built separately from its four defining attributes"""
+    if sp is None:
+        return None
+    return ps.Transform(factor=sp["factor"], conj=sp["conj"], transpose_axes=sp["transpose_axes"], swap_axes=sp["swap_axes"])
+
+
+def relayout(rng, data):
+    """the same values in another memory layout (what transposes / einsum / slicing in calculators produce) -> (array, label)"""
+    k = int(rng.integers(6))
+    if data.ndim == 0 or k <= 1:
+        return data.copy(), "C"
+    if k == 2:
+        return np.asfortranarray(data), "F"
+    if k == 3:
+        big = np.zeros(data.shape[:-1] + (2 * data.shape[-1],), dtype=data.dtype)
+        view = big[..., ::2]
+        view[...] = data
+        return view, "strided"
+    if k == 4:
+        buf = data[::-1].copy()
+        return buf[::-1], "negstride"
+    d = data.copy()
+    d.flags.writeable = False
+    return d, "readonly"
 
 
 def rand_data(rng, shape, cplx, amp):
@@ -254,12 +355,20 @@ def gen_smoothers(rng, st, Energies):
 
 
 # ---- models: ("E", arr, meta) ("K", arr, meta) ("D", {key: model}) ("V",) ("T", kpoints, {key: model}) ----
-def build_energy(rng, st, nobj=2, big=False):
+def build_energy(rng, st, nobj=2, big=False, variants=True):
     ER = st["EnergyResult"]
     ne = int(rng.integers(0, 4))
     rank = int(rng.integers(0, 5))
     NEs = [int(rng.integers(1, 6 if big else 5)) for _ in range(ne)]
-    while int(np.prod(NEs, dtype=int)) * 3 ** rank > 12000:
+    limit = 12000
+    large = bool(variants and rng.random() < 0.06)
+    if large:      # >= 100 energies on one axis (what a real Fermi scan has)
+        ne = max(ne, 1)
+        rank = min(rank, 2)
+        NEs = [int(rng.integers(1, 3)) for _ in range(ne)]
+        NEs[int(rng.integers(ne))] = int(rng.choice([100, 101, 128, 257, 1000]))
+        limit = 40000
+    while int(np.prod(NEs, dtype=int)) * 3 ** rank > limit:
         NEs[int(np.argmax(NEs))] -= 1
     cplx = bool(rng.random() < 0.5)
     amp = 10 ** rng.uniform(-3, 3)
@@ -267,49 +376,100 @@ def build_energy(rng, st, nobj=2, big=False):
     for N in NEs:
         e0 = rng.uniform(-5, 5)
         Energies.append(np.linspace(e0, e0 + rng.uniform(0.1, 10), N) if N > 1 else np.array([e0]))
-    tTR, spTR, lTR = gen_transform(rng, rank, st["ps"])
-    tInv, spInv, lInv = gen_transform(rng, rank, st["ps"])
+    notrans = bool(variants and rng.random() < 0.05)    # the documented defaults transformTR=None, transformInv=None
+    if notrans:
+        tTR = tInv = spTR = spInv = None
+        lTR = lInv = "None"
+    else:
+        tTR, spTR, lTR = gen_transform(rng, rank, st["ps"])
+        tInv, spInv, lInv = gen_transform(rng, rank, st["ps"])
     sm1, sm2 = gen_smoothers(rng, st, Energies)
-    titles = [("Efermi", "Omega"), ["E1", "E2", "E3"], "Efermi", ("a", "b", "c", "d")][int(rng.integers(4))]
+    nonvoid = sum(s is not None and type(s).__name__ != "VoidSmoother" for s in sm1)
+    titles = [("Efermi", "Omega"), ["E1", "E2", "E3"], "Efermi", ("a", "b", "c", "d"), (), []][int(rng.integers(6))]
     comment = ["undocumented", "", "AHC in S/cm\nsecond line", "x" * 40, "unicode Ω é"][int(rng.integers(5))]
     shape = tuple(NEs) + (3,) * rank
     meta = dict(kind="E", energies=[E.copy() for E in Energies], rank=rank, spTR=spTR, spInv=spInv, comment=comment,
-                labels=(lTR, lInv), cplx=cplx, ne=ne, nonvoid_smoothers=sum(s is not None and type(s).__name__ != "VoidSmoother" for s in sm1))
+                labels=(lTR, lInv), cplx=cplx, ne=ne, nonvoid_smoothers=nonvoid, notrans=notrans, large=large, forms=[])
     out = []
     for i in range(nobj):
         data = rand_data(rng, shape, cplx, amp)
+        given, lay = relayout(rng, data) if variants else (data.copy(), "C")
         En = [E.copy() for E in Energies]
-        if ne == 1 and rng.random() < 0.3:
+        r = rng.random()
+        if ne == 1 and r < 0.3:
             En = En[0]  # a bare array is accepted for one energy axis
-        obj = ER(En, data.copy(), smoothers=list(sm1 if i == 0 else sm2), transformTR=tTR, transformInv=tInv,
-                 rank=rank if rng.random() < 0.5 else None, E_titles=titles, comment=comment,
-                 save_mode=["bin", "bin+txt", "txt"][int(rng.integers(3))])
+        elif variants and r < 0.55:
+            En = tuple(En)
+            meta["forms"].append("Energies_tuple")
+        smo = list(sm1 if i == 0 else sm2)
+        r = rng.random()
+        if variants and r < 0.15 and all(x is None for x in smo):
+            smo = None
+            meta["forms"].append("smoothers_None")
+        elif variants and r < 0.3:
+            smo = tuple(smo)
+            meta["forms"].append("smoothers_tuple")
+        elif variants and r < 0.45 and ne == 1:
+            smo = smo[0]                # "a list of Smoother": one smoother for one axis is accepted bare (None = void)
+            meta["forms"].append("smoothers_bare")
+        ti_TR, ti_Inv = tTR, tInv
+        if variants and i > 0 and not notrans and rng.random() < 0.5:
+            ti_TR, ti_Inv = rebuild_transform(st["ps"], spTR), rebuild_transform(st["ps"], spInv)
+            meta["forms"].append("transforms_rebuilt")
+        kw = dict(smoothers=smo, rank=rank if rng.random() < 0.5 else None, E_titles=titles, comment=comment,
+                  save_mode=["bin", "bin+txt", "txt"][int(rng.integers(3))])
+        if not notrans or rng.random() < 0.5:
+            kw.update(transformTR=ti_TR, transformInv=ti_Inv)      # (otherwise: the defaults)
+        obj = ER(En, given, **kw)
+        if lay != "C":
+            meta["forms"].append("layout_" + lay)
         out.append((obj, ("E", data, meta)))
     return out
 
 
-def build_kband(rng, st, nobj=3, same_nk=False, nb=None, base=None):
+def build_kband(rng, st, nobj=3, same_nk=False, nb=None, base=None, variants=True):
     """nobj band-resolved results with the same band count / rank; nk random (equal if same_nk)"""
     rank = int(rng.integers(0, 5))
     if base is None:
         base = rng.random() < 0.25
+    large = bool(variants and nb is None and rng.random() < 0.06)
     nb = int(rng.integers(1, 5)) if nb is None else nb
+    if large:
+        rank = min(rank, 1)
+        nb = int(rng.choice([1, 16, 40]))
     mid = (nb,)   # (K__Result.__sub__ always returns a KBandResult, so the base class is used with one band axis too)
     cplx = bool(rng.random() < 0.4)
     amp = 10 ** rng.uniform(-3, 3)
-    tTR, spTR, lTR = gen_transform(rng, rank, st["ps"])
-    tInv, spInv, lInv = gen_transform(rng, rank, st["ps"])
+    notrans = bool(variants and rng.random() < 0.05)
+    if notrans:
+        tTR = tInv = spTR = spInv = None
+        lTR = lInv = "None"
+    else:
+        tTR, spTR, lTR = gen_transform(rng, rank, st["ps"])
+        tInv, spInv, lInv = gen_transform(rng, rank, st["ps"])
     cls = st["K__Result"] if base else st["KBandResult"]
-    meta = dict(kind="K", rank=rank, spTR=spTR, spInv=spInv, labels=(lTR, lInv), cplx=cplx, cls=cls.__name__, nb=nb)
+    meta = dict(kind="K", rank=rank, spTR=spTR, spInv=spInv, labels=(lTR, lInv), cplx=cplx, cls=cls.__name__, nb=nb,
+                notrans=notrans, large=large, forms=[])
     nk0 = int(rng.integers(1, 6))
+    if large:
+        nk0 = int(rng.choice([100, 128, 300]))
     out = []
     for i in range(nobj):
-        nk = nk0 if same_nk else int(rng.integers(1, 6))
+        nk = nk0 if (same_nk or large) else int(rng.integers(1, 6))
         data = rand_data(rng, (nk,) + mid + (3,) * rank, cplx, amp)
-        if base:
-            obj = cls(data.copy(), transformTR=tTR, transformInv=tInv, rank=rank)
+        given, lay = relayout(rng, data) if variants else (data.copy(), "C")
+        if lay != "C":
+            meta["forms"].append("layout_" + lay)
+        ti_TR, ti_Inv = tTR, tInv
+        if variants and i > 0 and not notrans and rng.random() < 0.5:
+            ti_TR, ti_Inv = rebuild_transform(st["ps"], spTR), rebuild_transform(st["ps"], spInv)
+            meta["forms"].append("transforms_rebuilt")
+        if notrans and rng.random() < 0.5:
+            obj = cls(given, rank=rank)           # the defaults
+        elif base:
+            obj = cls(given, transformTR=ti_TR, transformInv=ti_Inv, rank=rank)
         else:
-            obj = cls(data.copy(), transformTR=tTR, transformInv=tInv, rank=rank if rng.random() < 0.5 else None)
+            obj = cls(given, transformTR=ti_TR, transformInv=ti_Inv, rank=rank if rng.random() < 0.5 else None)
         out.append((obj, ("K", data, meta)))
     return out
 
@@ -317,6 +477,8 @@ def build_kband(rng, st, nobj=3, same_nk=False, nb=None, base=None):
 def build_dict(rng, st, nobj=2, depth=0):
     RD = st["ResultDict"]
     nkeys = int(rng.integers(1, 5))
+    if depth == 0 and rng.random() < 0.03:
+        nkeys = 0                      # a dictionary without entries is a valid (zero-dimensional) vector
     objs = [dict() for _ in range(nobj)]
     mods = [dict() for _ in range(nobj)]
     for ik in range(nkeys):
@@ -337,7 +499,15 @@ def build_dict(rng, st, nobj=2, depth=0):
         for i in range(nobj):
             objs[i][key] = vals[i][0]
             mods[i][key] = vals[i][1]
-    return [(RD(objs[i]), ("D", mods[i])) for i in range(nobj)]
+    out = []
+    for i in range(nobj):
+        d = objs[i]
+        if i > 0 and nkeys > 1 and rng.random() < 0.5:      # equal as a set of keys, inserted in another order
+            d = {k: d[k] for k in [list(d)[j] for j in rng.permutation(len(d))]}
+        r = rng.random()
+        obj = RD(d) if r < 0.6 else RD(d, save_mode=["bin", "txt", "bin+txt", "none"][int(rng.integers(4))])
+        out.append((obj, ("D", mods[i])))
+    return out
 
 
 # ---- operations on models ---------------------------------------------------------------------------
@@ -397,6 +567,15 @@ def m_scale(m):
     return float(np.abs(m[1]).max()) if m[1] is not None and m[1].size else 0.0
 
 
+def m_notrans(m):
+    """some member has no TR / inversion transform (documented default None): only proper rotations without TR are defined"""
+    if m[0] == "V":
+        return False
+    if m[0] == "D":
+        return any(m_notrans(v) for v in m[1].values())
+    return bool(m[2].get("notrans"))
+
+
 def m_transformable(m, M, TR):
     """0-d data cannot go through Transform.__call__ (library limitation, see the author guide)"""
     if m[0] == "V":
@@ -407,7 +586,9 @@ def m_transformable(m, M, TR):
 
 
 # ---- comparison of a real object with a model ----------------------------------------------------------
-def compare(ctx, st, mech, res, model, scale, wit, what=""):
+def compare(ctx, st, mech, res, model, scale, wit, what="", _top=True):
+    if _top and st.get("retain") is not None and len(st["retain"]) < 60:
+        st["retain"].append((res, model, scale, what))     # re-read at the end of the case
     kind = model[0]
     if kind == "V":
         ctx.ev()
@@ -423,7 +604,7 @@ def compare(ctx, st, mech, res, model, scale, wit, what=""):
             ctx.violation(mech + ":keys", f"{what}: keys {sorted(res.results)} != {sorted(model[1])}", wit)
             return
         for k in model[1]:
-            compare(ctx, st, mech, res.results[k], model[1][k], scale, wit, what + f"[{k}]")
+            compare(ctx, st, mech, res.results[k], model[1][k], scale, wit, what + f"[{k}]", _top=False)
         return
     meta = model[2]
     cls = st["EnergyResult"] if kind == "E" else st["K__Result"]
@@ -449,6 +630,18 @@ def compare(ctx, st, mech, res, model, scale, wit, what=""):
             np.array_equal(np.asarray(x), y) for x, y in zip(res.Energies, meta["energies"]))
         if not ok:
             ctx.violation(mech + ":energies", f"{what}: energies changed", wit)
+
+
+def recheck_retained(ctx, st, kind, wit):
+    """values returned earlier must stay valid after everything that was done later in the case"""
+    kept, st["retain"] = st.get("retain") or [], None
+    for res, model, scale, what in kept:
+        compare(ctx, st, f"{kind}:earlier_result_changed", res, model, scale, wit, what + " (re-read at the end of the case)", _top=False)
+    ctx.count("retained_results_rechecked", len(kept))
+
+
+def same_smoothers(x, y):
+    return len(x.smoothers) == len(y.smoothers) and all(p == q for p, q in zip(x.smoothers, y.smoothers))
 
 
 def snapshot(m):
@@ -504,7 +697,7 @@ def battery_vector(ctx, rng, st, a, ma, b, mb, wit, kind):
         compare(ctx, st, f"{kind}.sum()", sum([a, b]), m_add(ma, mb), 2 * s, wit, "sum([a,b])")
     # neutral elements
     for nm, f in (("a+Void", lambda: a + Void()), ("Void+a", lambda: Void() + a), ("a-Void", lambda: a - Void()),
-                  ("a+None", lambda: a + None), ("a+0", lambda: a + 0), ("0+a", lambda: 0 + a)):
+                  ("a+None", lambda: a + None), ("a+0", lambda: a + 0), ("0+a", lambda: 0 + a), ("a+0.0", lambda: a + 0.0)):
         ctx.count("void_neutrality_checks")
         try:
             r = f()
@@ -519,7 +712,8 @@ def battery_vector(ctx, rng, st, a, ma, b, mb, wit, kind):
 
 
 def battery_transform(ctx, rng, st, a, ma, b, mb, wit, kind, fresh_sum):
-    obj, M, TR, label = gen_sym(rng, st["ps"])
+    proper = m_notrans(ma) or m_notrans(mb)
+    obj, M, TR, label = gen_sym(rng, st["ps"], ctx, proper_only=proper)
     wit = dict(wit, sym=label, sym_matrix=M, sym_TR=TR)
     if not (m_transformable(ma, M, TR) and m_transformable(mb, M, TR)):
         ctx.count("skipped_transform_of_0d_data")
@@ -538,10 +732,27 @@ def battery_transform(ctx, rng, st, a, ma, b, mb, wit, kind, fresh_sum):
     compare(ctx, st, f"{kind}.transform!=reference", ta, mta, s, wit, "T(a)")
     compare(ctx, st, f"{kind}.transform!=reference", tsum, m_add(mta, mtb), s, wit, "T(a+b)")
     ctx.count("transform_checks")
+    if proper:
+        ctx.count("transform_of_result_without_TR_Inv_transforms")
     if TR:
         ctx.count("transform_with_TR")
     if np.linalg.det(M) < 0:
         ctx.count("transform_with_inversion")
+    # (c) the operation on the result of an operation: h after g (h independent / h = g / h = inverse of g), against the reference
+    mode = int(rng.integers(3))
+    if mode == 0:
+        obj2, M2, TR2, label2 = gen_sym(rng, st["ps"], ctx, proper_only=proper)
+    elif mode == 1:
+        obj2, M2, TR2, label2 = obj, M, TR, "same"
+    else:
+        obj2, M2, TR2, label2 = st["ps"].PointSymmetry(M.T.copy(), TR), M.T, TR, "inverse"
+    if m_transformable(mta, M2, TR2) and m_transformable(mtb, M2, TR2):
+        wit2 = dict(wit, second_sym=label2, second_matrix=M2, second_TR=TR2)
+        compare(ctx, st, f"{kind}.transform(of a transformed result)!=reference", ta.transform(obj2), m_transform(mta, M2, TR2), s, wit2,
+                "T2(T(a))")
+        compare(ctx, st, f"{kind}.transform(of a transformed result)!=reference", tsum.transform(obj2),
+                m_transform(m_add(mta, mtb), M2, TR2), s, wit2, "T2(T(a+b))")
+        ctx.count("transform_twice_checks")
     return label, True
 
 
@@ -574,6 +785,9 @@ def check_numpy_scalars(ctx, rng, st, a, ma, wit):
             raise
         compare(ctx, st, "EnergyResult.__mul__[numpy scalar]", r, m_mul(ma, float(c)), m_scale(ma) * abs(float(c)),
                 dict(wit, scalar=repr(c)), f"a*{nm}")
+    # division goes through 1./number, which is a float subclass for every numpy integer
+    k = np.int64(rng.integers(2, 9)) * int(rng.choice([-1, 1]))
+    compare(ctx, st, "EnergyResult.__truediv__[numpy integer]", a / k, m_div(ma, int(k)), m_scale(ma), dict(wit, scalar=repr(k)), "a/np.int64")
 
 
 def check_mul_array(ctx, rng, st, a, ma, wit):
@@ -584,7 +798,7 @@ def check_mul_array(ctx, rng, st, a, ma, wit):
     nax = arr.ndim - off
     if nax == 0:
         return
-    mode = int(rng.integers(3))
+    mode = int(rng.integers(4))
     if mode == 0:
         n = int(rng.integers(1, min(nax, 3) + 1))
         axes = None                    # default: the leading axes
@@ -593,7 +807,12 @@ def check_mul_array(ctx, rng, st, a, ma, wit):
         n = int(rng.integers(1, min(nax, 3) + 1))
         ax_list = sorted(int(x) for x in rng.choice(nax, size=n, replace=False))
         axes = tuple(ax_list) if (n > 1 or mode == 1) else ax_list[0]
+        if mode == 3:
+            axes = list(ax_list)
+            ctx.count("mul_array_axes_list")
     other = rng.uniform(-2, 2, size=tuple(arr.shape[x + off] for x in ax_list))
+    if rng.random() < 0.3 and other.ndim >= 2:
+        other = np.asfortranarray(other)      # same values, other memory layout
     idx = [None] * arr.ndim
     for x in ax_list:
         idx[x + off] = slice(None)
@@ -603,44 +822,114 @@ def check_mul_array(ctx, rng, st, a, ma, wit):
     compare(ctx, st, f"{name}.mul_array", res, (kind, expected, ma[2]), m_scale(ma) * 2,
             dict(wit, axes=repr(axes), other_shape=other.shape), "mul_array")
     ctx.count("mul_array_checks")
+    return res
 
 
-def check_save_load(ctx, rng, st, a, ma, wit):
-    """EnergyResult.save / savedata -> from_npz"""
+def savedata_names(rng, tmp):
+    """(name, prefix, suffix, i_iter, expected file stem) - the documented file name with empty / non-empty prefix and suffix"""
+    v = int(rng.integers(4))
+    it = int(rng.choice([0, 7, 123, 9999]))
+    pre, suf = ("pre", "suf") if v == 0 else ("", "suf") if v == 1 else ("pre", "") if v == 2 else ("", "")
+    if pre:
+        name, prefix = "quantity", os.path.join(tmp, pre)
+    else:
+        name, prefix = os.path.join(tmp, "quantity"), ""      # no prefix: the directory travels in the name
+    stem = (prefix + "-" if prefix else "") + name + ("-" + suf if suf else "") + f"_iter-{it:04d}"
+    return name, prefix, suf, it, stem
+
+
+def check_save_load(ctx, rng, st, a, ma, wit, b=None, mb=None):
+    """EnergyResult.save / savedata -> from_npz, of a fresh result or of the result of an earlier operation;
+    load -> save -> load; the loaded object as an operand"""
     ER = st["EnergyResult"]
     meta = ma[2]
+    if meta["notrans"] and not PENDING:
+        ctx.count("skipped_save_of_result_without_transforms")    # finding (pending): as_dict() raises on the default transforms
+        return
+    # what is saved
+    obj, mod, expected_comment, target = a, ma, meta["comment"], "fresh"
+    which = int(rng.integers(7))
+    c, _ = gen_scalar(rng)
+    if which == 3 and b is not None:
+        obj, mod, target = a + b, m_add(ma, mb), "a+b"
+    elif which == 4:
+        obj, mod, target = a * c, m_mul(ma, c), "a*c"
+    elif which == 5 and b is not None:
+        obj, mod, target = a - b, m_sub_direct(ma, mb), "a-b"
+    elif which == 6:
+        g, Mg, TRg, lg = gen_sym(rng, st["ps"], ctx, proper_only=meta["notrans"])
+        if m_transformable(ma, Mg, TRg):
+            obj, mod, target = a.transform(g), m_transform(ma, Mg, TRg), "T(a)"
+    if target != "fresh":
+        expected_comment = str(obj.comment)     # (which comment a derived result carries is not judged; the one it has must survive)
+        ctx.count("saved_derived_result")
+    wit = dict(wit, saved=target)
+    scale = m_scale(mod) * 1e-3     # (derived data are compared with the model first, the round trip itself must be bit-exact)
     tmp = tempfile.mkdtemp(prefix="verif_c16_")
     try:
-        if a.save_mode == {"bin"} and rng.random() < 0.7:
-            a.savedata("quantity", os.path.join(tmp, "pre"), "suf", 7)
-            path = os.path.join(tmp, "pre-quantity-suf_iter-0007.npz")
+        compare(ctx, st, "EnergyResult.save:object_before_saving", obj, mod, m_scale(ma) * 100 + m_scale(mod), wit, target)
+        saved_data = ma[1] if target == "fresh" else np.array(obj.data, copy=True)
+        r = rng.random()
+        if "bin" in obj.save_mode and r < 0.6:
+            name, prefix, suf, it, stem = savedata_names(rng, tmp)
+            obj.savedata(name, prefix, suf, it)
+            path = stem + ".npz"
             ctx.count("saved_with_savedata")
+            if "txt" in obj.save_mode:
+                ctx.count("saved_with_savedata_bin+txt")
+            if not (prefix and suf):
+                ctx.count("saved_with_empty_prefix_or_suffix")
+        elif r < 0.8:
+            obj.save(os.path.join(tmp, "res{}"))       # documented place holder, filled with ''
+            path = os.path.join(tmp, "res.npz")
+            ctx.count("saved_with_placeholder_name")
         else:
-            a.save(os.path.join(tmp, "res"))
+            obj.save(os.path.join(tmp, "res"))
             path = os.path.join(tmp, "res.npz")
         ctx.ev()
         if not os.path.isfile(path):
             ctx.violation("EnergyResult.save:no_file", f"{os.path.basename(path)} not written", wit)
             return
         ld = ER.from_npz(path)
-        compare(ctx, st, "EnergyResult.from_npz", ld, ma, 0.0, wit, "loaded")
+        compare(ctx, st, "EnergyResult.from_npz", ld, mod, scale, wit, "loaded")
         ctx.ev(2)
         if isinstance(ld, ER):
-            if not np.array_equal(ld.data, ma[1]) or ld.data.dtype != ma[1].dtype:
+            if not np.array_equal(ld.data, saved_data) or ld.data.dtype != saved_data.dtype:
                 ctx.violation("EnergyResult.from_npz:data_not_identical", "binary round trip changed the data or its dtype", wit)
-            if ld.comment != meta["comment"]:
-                ctx.violation("EnergyResult.from_npz:comment", f"comment {ld.comment!r} != {meta['comment']!r}", wit)
+            if ld.comment != expected_comment:
+                ctx.violation("EnergyResult.from_npz:comment", f"comment {ld.comment!r} != {expected_comment!r}", wit)
             # behaviour of the re-loaded transforms
-            obj, M, TR, label = gen_sym(rng, st["ps"])
-            if not TR:
-                obj = obj * st["ps"].TimeReversal       # make sure both re-loaded transforms act
-            if np.linalg.det(M) > 0:
-                obj = st["ps"].Inversion * obj
-            if ma[1].ndim > 0:
-                t1 = a.transform(obj).data
-                t2 = ld.transform(obj).data
-                ctx.close("EnergyResult.from_npz:transform_behaviour", t2, t1, rtol=1e-14, scale=m_scale(ma),
-                          what="loaded.transform(sym) vs original.transform(sym)", witness=dict(wit, sym=label))
+            if not meta["notrans"]:
+                sym, M, TR, label = gen_sym(rng, st["ps"], ctx)
+                if not TR:
+                    sym = sym * st["ps"].TimeReversal       # make sure both re-loaded transforms act
+                if np.linalg.det(M) > 0:
+                    sym = st["ps"].Inversion * sym
+                if mod[1].ndim > 0:
+                    t1 = obj.transform(sym).data
+                    t2 = ld.transform(sym).data
+                    ctx.close("EnergyResult.from_npz:transform_behaviour", t2, t1, rtol=1e-14, scale=m_scale(mod),
+                              what="loaded.transform(sym) vs original.transform(sym)", witness=dict(wit, sym=label))
+            # load -> save -> load
+            if rng.random() < 0.5:
+                ld.save(os.path.join(tmp, "again"))
+                ld2 = ER.from_npz(os.path.join(tmp, "again.npz"))
+                compare(ctx, st, "EnergyResult.from_npz(second round trip)", ld2, mod, scale, wit, "loaded twice")
+                ctx.ev()
+                if isinstance(ld2, ER) and (not np.array_equal(ld2.data, saved_data) or ld2.comment != expected_comment):
+                    ctx.violation("EnergyResult.from_npz(second round trip):not_identical", "data or comment changed in load -> save -> load", wit)
+                ctx.count("save_load_twice")
+            # the loaded object as an operand (smoothers are not stored: only with void smoothers can it meet the original)
+            c2, _ = gen_scalar(rng)
+            s = m_scale(mod)
+            compare(ctx, st, "EnergyResult.from_npz:loaded_as_operand", ld * c2, m_mul(mod, c2), s * max(1, abs(c2)), wit, "loaded*c")
+            if meta["nonvoid_smoothers"] == 0:
+                compare(ctx, st, "EnergyResult.from_npz:loaded_as_operand", ld + obj, m_add(mod, mod), 2 * s, wit, "loaded+original")
+                compare(ctx, st, "EnergyResult.from_npz:loaded_as_operand", obj - ld, m_sub_direct(mod, mod), 2 * s, wit, "original-loaded")
+                ctx.count("loaded_result_meets_original")
+            else:
+                compare(ctx, st, "EnergyResult.from_npz:loaded_as_operand", ld + ld, m_add(mod, mod), 2 * s, wit, "loaded+loaded")
+            ctx.count("loaded_result_reused")
         ctx.count("save_load_roundtrips")
         # the void result is saved / loaded as void
         if rng.random() < 0.1:
@@ -648,38 +937,143 @@ def check_save_load(ctx, rng, st, a, ma, wit):
             ctx.ev()
             if not isinstance(ER.from_npz(os.path.join(tmp, "void.npz")), st["VoidResult"]):
                 ctx.violation("VoidResult.save->from_npz", "a saved VoidResult is not loaded as VoidResult", wit)
+        # a missing file is documented to give the void result
+        if rng.random() < 0.2:
+            ctx.ev()
+            r = ER.from_npz(os.path.join(tmp, "never_written.npz"))
+            if not isinstance(r, st["VoidResult"]):
+                ctx.violation("EnergyResult.from_npz:missing_file", f"missing file gave {type(r).__name__}, not the void result", wit)
+            ctx.count("from_npz_missing_file")
     finally:
         shutil.rmtree(tmp, ignore_errors=True)
+
+
+def check_inplace_add_energy(ctx, rng, st, a, ma, b, mb, wit):
+    """EnergyResult.add(other): in-place element-wise sum into the result of an earlier operation.  Whatever that operation
+    was given must not change (re-checked at the end of the case: operands and every retained result)"""
+    ps = st["ps"]
+    which = int(rng.integers(4))
+    if which == 0:
+        r, mr, lab = a * 1, ma, "a*1"
+    elif which == 1:
+        r, mr, lab = a + b, m_add(ma, mb), "a+b"
+    elif which == 2:
+        ident = [ps.Identity, ps.Rotation(1, [0.3, -1, 2]), ps.C2x * ps.C2x, ps.from_string("Identity"), ps.C4z * ps.C4z * ps.C2z][int(rng.integers(5))]
+        r, mr, lab = a.transform(ident), ma, "T_identity(a)"
+    else:
+        r, mr, lab = a / 1, ma, "a/1"
+    warm = bool(rng.random() < 0.5)
+    if warm and PENDING:
+        monitors.warm_caches(r, depth=0)
+    r.add(b)
+    wit = dict(wit, add_into=lab)
+    compare(ctx, st, "EnergyResult.add(in place)", r, m_add(mr, mb), m_scale(ma) + 2 * m_scale(mb), wit, f"({lab}).add(b)")
+    ctx.ev()
+    if not same_smoothers(r, a):
+        ctx.violation("EnergyResult.add(in place):smoothers", "smoothers lost", wit)
+    if warm and PENDING:
+        monitors.assert_no_stale_caches(ctx, r, "EnergyResult.add", wit)     # finding (pending): dataSmooth is not invalidated
+    ctx.count("inplace_add_checks")
+    ctx.count("inplace_add_into_" + lab)
 
 
 def case_energy(ctx, rng, st):
     (a, ma), (b, mb) = build_energy(rng, st, 2, big=ctx.thorough)
     meta = ma[2]
     wit = dict(kind="EnergyResult", shape=ma[1].shape, n_energies=meta["ne"], rank=meta["rank"], complex=meta["cplx"],
-               transformTR=meta["spTR"], transformInv=meta["spInv"])
+               transformTR=meta["spTR"], transformInv=meta["spInv"], forms=sorted(set(meta["forms"])))
+    st["retain"] = []
     snap = (snapshot(ma), snapshot(mb))
+    warm = bool(rng.random() < 0.5)
+    if warm:        # objects that were used before: cached properties filled
+        monitors.warm_caches(a, depth=0)
+        monitors.warm_caches(b, depth=0)
+        ctx.count("operands_with_warm_caches")
+    compare(ctx, st, "EnergyResult.__init__", a, ma, 0.0, wit, "a as constructed")
     wit2 = battery_vector(ctx, rng, st, a, ma, b, mb, wit, "EnergyResult")
     check_numpy_scalars(ctx, rng, st, a, ma, wit)
-    check_mul_array(ctx, rng, st, a, ma, wit)
+    ma_res = check_mul_array(ctx, rng, st, a, ma, wit)
+    if rng.random() < 0.3:
+        check_mul_array(ctx, rng, st, a + b, m_add(ma, mb), wit)     # on the result of an operation
     label, done = battery_transform(ctx, rng, st, a, ma, b, mb, wit, "EnergyResult", lambda: a + b)
-    # smoothers travel with the result
+    # smoothers travel with the result ("set automatically ... during the further * and + operations")
     ctx.ev()
     r = a + b
     if len(r.smoothers) != len(a.smoothers) or any(not (x == y) for x, y in zip(r.smoothers, a.smoothers)):
         ctx.violation("EnergyResult.__add__:smoothers", "sum lost the smoothers", wit)
-    check_save_load(ctx, rng, st, a, ma, wit)
+    derived = [("a*c", a * 3), ("c*a", 2.5 * a), ("a/c", a / 7), ("a-b", a - b), ("a+Void", a + st["VoidResult"]()), ("sum", sum([a, b]))]
+    if ma_res is not None:
+        derived.append(("mul_array", ma_res))
+    if m_transformable(ma, np.eye(3), False):
+        derived.append(("transform", a.transform(st["ps"].C3z if meta["notrans"] else st["ps"].C3z * st["ps"].Mx * st["ps"].TimeReversal
+                                                 if ma[1].ndim > 0 else st["ps"].C3z)))
+    for nm, r in derived:
+        ctx.ev()
+        if not same_smoothers(r, a):
+            ctx.violation(f"EnergyResult.{nm}:smoothers", f"{nm} lost the smoothers", wit)
+    ctx.count("smoothers_travel_checks", len(derived))
+    if meta["nonvoid_smoothers"]:
+        ctx.count("smoothers_travel_checks_nonvoid")
+    check_inplace_add_energy(ctx, rng, st, a, ma, b, mb, wit)
+    check_save_load(ctx, rng, st, a, ma, wit, b, mb)
+    recheck_retained(ctx, st, "EnergyResult", wit)
     ctx.ev()
     if not (same_snapshot(snap[0], data_of(a, st)) and same_snapshot(snap[1], data_of(b, st))):
-        ctx.violation("EnergyResult:operand_mutated", "an operand was modified by +,-,*,/,transform,save", wit)
+        ctx.violation("EnergyResult:operand_mutated", "an operand was modified by +,-,*,/,add,transform,save", wit)
+    compare(ctx, st, "EnergyResult:operand_mutated", a, ma, 0.0, wit, "a at the end")
+    compare(ctx, st, "EnergyResult:operand_mutated", b, mb, 0.0, wit, "b at the end")
+    if warm:
+        monitors.assert_no_stale_caches(ctx, a, "EnergyResult_operations", wit)
+        monitors.assert_no_stale_caches(ctx, b, "EnergyResult_operations", wit)
     ctx.count("cases_EnergyResult")
     ctx.count(f"energy_axes_{meta['ne']}")
     ctx.count(f"rank_{meta['rank']}")
-    if meta["spTR"]["transpose_axes"] or meta["spInv"]["transpose_axes"]:
-        ctx.count("transposing_transform")
-    if meta["spTR"]["swap_axes"] or meta["spInv"]["swap_axes"]:
-        ctx.count("swapping_transform")
+    for f in set(meta["forms"]):
+        ctx.count("form_" + f)
+    if meta["large"]:
+        ctx.count("large_result")
+    if meta["notrans"]:
+        ctx.count("result_without_TR_Inv_transforms")
+    else:
+        if meta["spTR"]["transpose_axes"] or meta["spInv"]["transpose_axes"]:
+            ctx.count("transposing_transform")
+        if meta["spTR"]["swap_axes"] or meta["spInv"]["swap_axes"]:
+            ctx.count("swapping_transform")
     ctx.nontrivial(("E", meta["ne"], meta["rank"], meta["cplx"], meta["labels"], wit2["scalar_kind"], label if done else None))
     ctx.sample(dict(wit, sym=label))
+
+
+def check_inplace_add_kband(ctx, rng, st, a, ma, b, mb, a2, ma2, wit, name):
+    """K__Result.add(other): in-place element-wise sum (equal k counts) into the result of an earlier operation"""
+    ps = st["ps"]
+    which = int(rng.integers(4))
+    mx = ma2
+    if which == 0:
+        r, mr, x, lab = a * 1, ma, a2, "a*1"
+    elif which == 1:
+        ident = [ps.Identity, ps.Rotation(1, [0.3, -1, 2]), ps.C2x * ps.C2x, ps.from_string("Identity")][int(rng.integers(4))]
+        r, mr, x, lab = a.transform(ident), ma, a2, "T_identity(a)"
+    else:
+        # both sides are sums of two blocks with the same k counts
+        r, mr, x, mx, lab = a + b, m_add(ma, mb), a2 + b, m_add(ma2, mb), "a+b"
+        state = int(rng.integers(4))     # which of the two had its blocks merged (by reading .data) before
+        if state in (1, 3):
+            r.data
+        if state in (2, 3):
+            x.data
+        if state in (1, 2):
+            # finding (pending): add() pairs the blocks with zip, so its result depends on whether .data was read before
+            if not PENDING:
+                ctx.count("skipped_inplace_add_with_different_block_state")
+                return
+            lab += " (one side merged)"
+        elif state == 3:
+            lab += " (both merged)"
+    r.add(x)
+    wit = dict(wit, add_into=lab)
+    compare(ctx, st, f"{name}.add(in place)", r, ("K", mr[1] + mx[1], mr[2]), m_scale(mr) + m_scale(mx), wit, f"({lab}).add(x)")
+    ctx.count("inplace_add_checks")
+    ctx.count("inplace_add_into_" + lab)
 
 
 def case_kband(ctx, rng, st):
@@ -693,8 +1087,10 @@ def case_kband(ctx, rng, st):
     ma2 = ("K", d2, meta)
     name = "K__Result"
     wit = dict(kind=meta["cls"], shape_a=ma[1].shape, shape_b=mb[1].shape, rank=meta["rank"], complex=meta["cplx"],
-               transformTR=meta["spTR"], transformInv=meta["spInv"])
+               transformTR=meta["spTR"], transformInv=meta["spInv"], forms=sorted(set(meta["forms"])))
+    st["retain"] = []
     snap = (snapshot(ma), snapshot(mb), snapshot(ma2))
+    compare(ctx, st, f"{name}.__init__", a, ma, 0.0, wit, "a as constructed")
     s = m_scale(ma) + m_scale(mb) + m_scale(ma2)
     c, ckind = gen_scalar(rng)
     if rng.random() < 0.3:
@@ -728,35 +1124,107 @@ def case_kband(ctx, rng, st):
         compare(ctx, st, f"{name}.void_neutral", r, ma, s, wit, nm)
     compare(ctx, st, f"{name}.void_neutral", Void() - a, m_mul(ma, -1), s, wit, "Void-a")
     compare(ctx, st, f"{name}.void_neutral", (a + Void()) + b, m_add(ma, mb), s, wit, "(a+Void)+b")
+    # one sum object used for several requests, its k-blocks merged (by reading .data) before or between them
+    ssum = a + b
+    msum = m_add(ma, mb)
+    merged_first = bool(rng.random() < 0.5)
+    if merged_first:
+        ssum.data
+    r_before = ssum * c
+    compare(ctx, st, f"{name}.__mul__(of a re-used sum)", r_before, m_mul(msum, c), sc, wit, "s*c")
+    if not merged_first:
+        ssum.data
+    compare(ctx, st, f"{name}.__mul__(of a re-used sum)", ssum * c, m_mul(msum, c), sc, wit, "s*c again")
+    compare(ctx, st, f"{name}.__add__(union over k)", ssum + a2, m_add(msum, ma2), s, wit, "s+a2 (s re-used)")
+    compare(ctx, st, f"{name}.__add__(union over k)", a2 + ssum, m_add(ma2, msum), s, wit, "a2+s (s re-used)")
+    ctx.ev()
+    if ssum.nk != msum[1].shape[0] or r_before.nk != msum[1].shape[0]:
+        ctx.violation(f"{name}.nk", "nk of a re-used sum is not the sum of the k counts", wit)
+    ctx.count("reused_sum_merged_first" if merged_first else "reused_sum_merged_between")
+    # a result given as a list of k-blocks (what `+` builds internally; accepted by the constructor)
+    if ma[1].shape[0] >= 2:
+        cut = int(rng.integers(1, ma[1].shape[0]))
+        al = type(a)([ma[1][:cut].copy(), ma[1][cut:].copy()], transformTR=a.transformTR, transformInv=a.transformInv, rank=meta["rank"])
+        ctx.ev()
+        if al.nk != ma[1].shape[0]:
+            ctx.violation(f"{name}.nk", "nk of a result built from a list of blocks", wit)
+        compare(ctx, st, f"{name}.__mul__(of a sum)", al * c, m_mul(ma, c), sc, wit, "[blocks]*c")
+        compare(ctx, st, f"{name}.__add__(union over k)", al + b, m_add(ma, mb), s, wit, "[blocks]+b")
+        compare(ctx, st, f"{name}.__sub__", al - a2, m_sub_direct(ma, ma2), s, wit, "[blocks]-a2")
+        compare(ctx, st, f"{name}.__init__", al, ma, 0.0, wit, "built from a list of blocks")
+        ctx.count("built_from_block_list")
+    check_inplace_add_kband(ctx, rng, st, a, ma, b, mb, a2, ma2, wit, name)
     check_mul_array(ctx, rng, st, a, ma, wit)
+    if rng.random() < 0.3:
+        check_mul_array(ctx, rng, st, ssum, msum, wit)        # any axes, on the re-used sum
     if rng.random() < 0.5:    # mul_array of a fresh sum (several blocks)
         other = rng.uniform(-2, 2, size=meta["nb"])
         idx = (None, slice(None)) + (None,) * (ma[1].ndim - 2)
         compare(ctx, st, f"{name}.mul_array", (a + b).mul_array(other, axes=0),
                 ("K", np.concatenate([ma[1], mb[1]], axis=0) * other[idx], meta), 2 * s, wit, "(a+b).mul_array")
     label, done = battery_transform(ctx, rng, st, a, ma, b, mb, wit, name, lambda: a + b)
-    # save -> from_npz of the band-resolved result (rank is re-derived from the shape)
-    if type(a) is KB:
+    # save -> from_npz of the band-resolved result (rank is re-derived from the shape): the fresh result or the result of an operation
+    if type(a) is KB and (PENDING or not meta["notrans"]):
         tmp = tempfile.mkdtemp(prefix="verif_c16_")
         try:
-            a.save(os.path.join(tmp, "kb"))
+            which = int(rng.integers(6))
+            obj, mod, target = a, ma, "fresh"
+            if which == 2:
+                obj, mod, target = a + b, m_add(ma, mb), "a+b (blocks not merged)"
+            elif which == 3:
+                obj, mod, target = (a + b) * c, m_mul(m_add(ma, mb), c), "(a+b)*c"
+            elif which == 4:
+                g, Mg, TRg, lg = gen_sym(rng, st["ps"], ctx, proper_only=meta["notrans"])
+                if m_transformable(ma, Mg, TRg):
+                    obj, mod, target = (a + b).transform(g), m_transform(m_add(ma, mb), Mg, TRg), "T(a+b)"
+            elif which == 5:
+                obj, mod, target = a - a2, m_sub_direct(ma, ma2), "a-a2"
+            witk = dict(wit, saved=target)
+            if target != "fresh":
+                ctx.count("saved_derived_result_kband")
+            sk = (s + m_scale(mod)) * 81
+            obj.save(os.path.join(tmp, "kb{}" if rng.random() < 0.3 else "kb"))
             ld = KB.from_npz(os.path.join(tmp, "kb.npz"))
-            compare(ctx, st, "KBandResult.from_npz", ld, ma, 0.0, wit, "loaded")
+            compare(ctx, st, "KBandResult.from_npz", ld, mod, sk if target != "fresh" else 0.0, witk, "loaded")
             ctx.ev()
-            if not np.array_equal(ld.data, ma[1]):
-                ctx.violation("KBandResult.from_npz:data_not_identical", "binary round trip changed the data", wit)
+            if not np.array_equal(ld.data, ma[1] if target == "fresh" else obj.data):
+                ctx.violation("KBandResult.from_npz:data_not_identical", "binary round trip changed the data", witk)
+            if rng.random() < 0.5:
+                ld.save(os.path.join(tmp, "again"))
+                ld2 = KB.from_npz(os.path.join(tmp, "again.npz"))
+                compare(ctx, st, "KBandResult.from_npz(second round trip)", ld2, mod, sk, witk, "loaded twice")
+                ctx.ev()
+                if not np.array_equal(ld2.data, obj.data):
+                    ctx.violation("KBandResult.from_npz(second round trip):not_identical", "data changed in load -> save -> load", witk)
+                ctx.count("save_load_twice_kband")
+            # the loaded object as an operand
+            compare(ctx, st, "KBandResult.from_npz:loaded_as_operand", ld * c, m_mul(mod, c), sk * max(1, abs(c)), witk, "loaded*c")
+            compare(ctx, st, "KBandResult.from_npz:loaded_as_operand", ld + b, m_add(mod, mb), sk, witk, "loaded+b")
+            compare(ctx, st, "KBandResult.from_npz:loaded_as_operand", b + ld, m_add(mb, mod), sk, witk, "b+loaded")
+            compare(ctx, st, "KBandResult.from_npz:loaded_as_operand", obj - ld, m_sub_direct(mod, mod), sk, witk, "original-loaded")
+            ctx.count("loaded_result_reused_kband")
             ctx.count("save_load_roundtrips_kband")
         finally:
             shutil.rmtree(tmp, ignore_errors=True)
+    recheck_retained(ctx, st, name, wit)
     ctx.ev()
     if not (same_snapshot(snap[0], a.data) and same_snapshot(snap[1], b.data) and same_snapshot(snap[2], a2.data)):
-        ctx.violation(f"{name}:operand_mutated", "an operand was modified by +,-,*,transform,save", wit)
+        ctx.violation(f"{name}:operand_mutated", "an operand was modified by +,-,*,add,transform,save", wit)
+    compare(ctx, st, f"{name}:operand_mutated", a, ma, 0.0, wit, "a at the end")
+    compare(ctx, st, f"{name}:operand_mutated", b, mb, 0.0, wit, "b at the end")
+    for f in set(meta["forms"]):
+        ctx.count("form_" + f)
+    if meta["large"]:
+        ctx.count("large_result")
     ctx.count("cases_" + meta["cls"])
     ctx.count(f"rank_{meta['rank']}")
-    if meta["spTR"]["transpose_axes"] or meta["spInv"]["transpose_axes"]:
-        ctx.count("transposing_transform")
-    if meta["spTR"]["swap_axes"] or meta["spInv"]["swap_axes"]:
-        ctx.count("swapping_transform")
+    if meta["notrans"]:
+        ctx.count("result_without_TR_Inv_transforms")
+    else:
+        if meta["spTR"]["transpose_axes"] or meta["spInv"]["transpose_axes"]:
+            ctx.count("transposing_transform")
+        if meta["spTR"]["swap_axes"] or meta["spInv"]["swap_axes"]:
+            ctx.count("swapping_transform")
     ctx.nontrivial((meta["cls"], ma[1].shape[1:], meta["cplx"], meta["labels"], ckind, label if done else None))
     ctx.sample(dict(wit, sym=label))
 
@@ -769,15 +1237,57 @@ def dict_signature(m):
     return (m[0], m[2]["rank"], m[2].get("ne"), m[2]["labels"])
 
 
+def check_dict_savedata(ctx, rng, st, a, ma, wit):
+    """ResultDict.savedata(prefix, suffix, i_iter): every energy-resolved entry is written under its key; the binary files must load back"""
+    ER = st["EnergyResult"]
+    keys = [k for k, m in ma[1].items() if m[0] == "E" and (PENDING or not m[2]["notrans"])]
+    if not keys:
+        return
+    sub = st["ResultDict"]({k: a.results[k] for k in keys})
+    tmp = tempfile.mkdtemp(prefix="verif_c16_")
+    try:
+        v = int(rng.integers(3))
+        it = int(rng.choice([0, 3, 42]))
+        pre, suf = (os.path.join(tmp, "run"), "suf") if v == 0 else (os.path.join(tmp, "run"), "") if v == 1 else (os.path.join(tmp, "x"), "sym-2")
+        sub.savedata(pre, suf, it)
+        for k in keys:
+            r = a.results[k]
+            if "bin" not in r.save_mode:
+                continue
+            path = pre + "-" + k + ("-" + suf if suf else "") + f"_iter-{it:04d}.npz"
+            witk = dict(wit, key=k, file=os.path.basename(path))
+            ctx.ev()
+            if not os.path.isfile(path):
+                ctx.violation("ResultDict.savedata:no_file", f"{os.path.basename(path)} not written; directory holds {sorted(os.listdir(tmp))}", witk)
+                continue
+            ld = ER.from_npz(path)
+            compare(ctx, st, "ResultDict.savedata->from_npz", ld, ma[1][k], 0.0, witk, f"loaded[{k}]")
+            ctx.ev()
+            if isinstance(ld, ER) and (not np.array_equal(ld.data, ma[1][k][1]) or ld.comment != ma[1][k][2]["comment"]):
+                ctx.violation("ResultDict.savedata->from_npz:not_identical", "data or comment changed", witk)
+            ctx.count("dict_savedata_roundtrips")
+    finally:
+        shutil.rmtree(tmp, ignore_errors=True)
+
+
 def case_dict(ctx, rng, st):
     (a, ma), (b, mb) = build_dict(rng, st, 2)
-    wit = dict(kind="ResultDict", signature=repr(dict_signature(ma))[:600])
+    wit = dict(kind="ResultDict", signature=repr(dict_signature(ma))[:600], key_order_a=list(a.results), key_order_b=list(b.results))
+    st["retain"] = []
     snap = (snapshot(ma), snapshot(mb))
+    if list(a.results) != list(b.results):
+        ctx.count("dict_key_order_differs")
+    if not a.results:
+        ctx.count("dict_without_keys")
     wit2 = battery_vector(ctx, rng, st, a, ma, b, mb, wit, "ResultDict")
     label, done = battery_transform(ctx, rng, st, a, ma, b, mb, wit, "ResultDict", lambda: a + b)
+    check_dict_savedata(ctx, rng, st, a, ma, wit)
+    recheck_retained(ctx, st, "ResultDict", wit)
     ctx.ev()
     if not (same_snapshot(snap[0], data_of(a, st)) and same_snapshot(snap[1], data_of(b, st))):
-        ctx.violation("ResultDict:operand_mutated", "an operand was modified by +,-,*,/,transform", wit)
+        ctx.violation("ResultDict:operand_mutated", "an operand was modified by +,-,*,/,transform,savedata", wit)
+    compare(ctx, st, "ResultDict:operand_mutated", a, ma, 0.0, wit, "a at the end")
+    compare(ctx, st, "ResultDict:operand_mutated", b, mb, 0.0, wit, "b at the end")
     ctx.count("cases_ResultDict")
     ctx.nontrivial(("D", dict_signature(ma), wit2["scalar_kind"], label if done else None))
     ctx.sample(dict(wit, sym=label))
@@ -787,6 +1297,7 @@ def case_tab(ctx, rng, st):
     """TABresult: + is the union over k of the k-points and of every tabulated quantity"""
     TAB = st["TABresult"]
     Void = st["VoidResult"]
+    st["retain"] = None
     nb = int(rng.integers(1, 4))
     nq = int(rng.integers(0, 3))
     quantities = ["Energy"] + ["berry", "spin", "morb"][:nq]
@@ -794,7 +1305,7 @@ def case_tab(ctx, rng, st):
     recip = 2 * np.pi * np.linalg.inv(lattice).T
     per_q = {}
     for q in quantities:
-        per_q[q] = build_kband(rng, st, 2, nb=nb, base=False)
+        per_q[q] = build_kband(rng, st, 2, nb=nb, base=False, variants=False)
     mode = ["grid", "path"][int(rng.integers(2))]
     tabs, mods, kpts = [], [], []
     for i in range(2):
@@ -839,7 +1350,7 @@ def case_tab(ctx, rng, st):
         cmp_tab("TABresult.void_neutral", r, kpts[0], mods[0], "t0+Void")
     except AttributeError:
         ctx.count("observed_AttributeError_TABresult+Void")     # outside the anchored classes: reported, not judged
-    obj, M, TR, label = gen_sym(rng, st["ps"])
+    obj, M, TR, label = gen_sym(rng, st["ps"], ctx)
     t01 = (tabs[0] + tabs[1]).transform(obj)
     t0, t1 = tabs[0].transform(obj), tabs[1].transform(obj)
     tsum = {q: ("K", np.concatenate([t0.results[q].data, t1.results[q].data], axis=0), mods[0][q][2]) for q in quantities}
@@ -855,8 +1366,9 @@ def case_tab(ctx, rng, st):
 
 def case_void(ctx, rng, st):
     Void = st["VoidResult"]
+    st["retain"] = None
     v, w = Void(), Void()
-    obj, M, TR, label = gen_sym(rng, st["ps"])
+    obj, M, TR, label = gen_sym(rng, st["ps"], ctx)
     c, _ = gen_scalar(rng)
     for nm, r in (("v+w", v + w), ("v*c", v * c), ("c*v", c * v), ("v/c", v / (c if c else 2)), ("v-w", v - w),
                   ("T(v)", v.transform(obj)), ("sum", sum([v, w], Void()))):
@@ -889,18 +1401,43 @@ if __name__ == "__main__":
              "transposes and swaps; symmetries: Rotation(n, axis), Mirror, the 14 named ones, general orthogonal "
              "matrices, TimeReversal, Inversion and products of up to 3.  A case is non-trivial when its data are "
              "random non-zero arrays; distinct by (class, energy axes, rank/shape, dtype, transform pair, scalar "
-             "type, symmetry label)",
+             "type, symmetry label).  Widening: argument forms (tuple / bare Energies and smoothers, empty titles, separately "
+             "built equal transforms, default None transforms, F-ordered / strided / read-only data, 100-1000 energies, "
+             "100-300 k x 16-40 bands, axes of length 1e-6..1e6 as list/tuple/array, default axes, sym.copy(), as_dict round "
+             "trip, from_string_prod, permuted / empty dictionaries) and histories (warm caches, re-used sums merged before / "
+             "between requests, block lists, in-place add into derived results, transform of transformed results, save of "
+             "derived results, load->save->load, loaded objects as operands, savedata name forms, ResultDict.savedata); "
+             "every returned result is re-read at the end of the case",
         assumptions=["oracle = numpy on model arrays kept by the harness; rotation = einsum with the proper part of a "
                      "Rodrigues matrix built by the harness; TR transform applied before the inversion transform",
                      "for band-resolved results `+` is the union over k (stack along k) and ResultDict a-b = a+(-1)*b",
                      "K__Result.__truediv__, TABresult.__mul__ and the comment of a sum are not judged",
                      "EnergyResult*x with x a numpy scalar that is not a python int/float subclass may raise the "
                      "library's explicit TypeError (counted, not judged)",
-                     "relative tolerance 1e-12 of the input magnitude; binary round trip must be bit-identical"],
+                     "relative tolerance 1e-12 of the input magnitude; binary round trip must be bit-identical",
+                     "the comment carried by a derived result (a+b, a*c, T(a)) is not judged, but the one it has must survive saving",
+                     "smoothers are not stored in the binary file: a loaded result meets the original only when all smoothers are void",
+                     "results without TR / inversion transforms (the constructor defaults) are transformed by proper rotations only",
+                     "pending findings (run only with VERIF_C16_PENDING=1): save of a result with the default None transforms, "
+                     "dataSmooth after the in-place add, K__Result.add between sums in different block states"],
         required_counters=("cases_EnergyResult", "cases_KBandResult", "cases_K__Result", "cases_ResultDict",
                            "cases_TABresult", "void_neutrality_checks", "transform_checks", "transform_with_TR",
                            "transform_with_inversion", "save_load_roundtrips", "save_load_roundtrips_kband",
                            "mul_array_checks", "transposing_transform", "swapping_transform",
                            "energy_axes_0", "energy_axes_1", "energy_axes_2", "energy_axes_3",
-                           "rank_0", "rank_1", "rank_2", "rank_3", "rank_4"),
+                           "rank_0", "rank_1", "rank_2", "rank_3", "rank_4",
+                           # widening review
+                           "retained_results_rechecked", "operands_with_warm_caches", "transform_twice_checks",
+                           "smoothers_travel_checks", "smoothers_travel_checks_nonvoid", "inplace_add_checks",
+                           "inplace_add_into_T_identity(a)", "inplace_add_into_a+b", "inplace_add_into_a+b (both merged)",
+                           "saved_derived_result", "saved_derived_result_kband", "save_load_twice", "save_load_twice_kband",
+                           "loaded_result_reused", "loaded_result_meets_original", "loaded_result_reused_kband",
+                           "saved_with_savedata_bin+txt", "saved_with_empty_prefix_or_suffix", "saved_with_placeholder_name",
+                           "from_npz_missing_file", "dict_savedata_roundtrips", "dict_key_order_differs", "dict_without_keys",
+                           "reused_sum_merged_first", "reused_sum_merged_between", "built_from_block_list",
+                           "sym_axis_rescaled", "sym_axis_tuple_or_array", "sym_default_axis", "sym_via_copy", "sym_via_as_dict",
+                           "sym_from_string_prod", "form_Energies_tuple", "form_smoothers_None", "form_smoothers_tuple",
+                           "form_smoothers_bare", "form_transforms_rebuilt", "form_layout_F", "form_layout_strided",
+                           "form_layout_negstride", "form_layout_readonly", "large_result",
+                           "result_without_TR_Inv_transforms", "transform_of_result_without_TR_Inv_transforms", "mul_array_axes_list"),
     )
